@@ -78,6 +78,16 @@ def source_masks(d, ctx):
         kw['sensor_axis'] = neg(d, sensor, ndim)
         if keepdims:
             kw['keepdims'] = True
+    eps_used = EPS
+    if which in ('wiener', 'irm', 'psm') and d.int(0, 3) == 0:
+        eps_used = d.choice([1e-10, 1e-3, 0.5])
+        kw['eps'] = eps_used
+    dtype_variant = d.choice(['complex128', 'complex128', 'complex128', 'complex64', 'real'])
+    if dtype_variant == 'complex64':
+        x = x.astype(np.complex64)
+    elif dtype_variant == 'real' and which in ('ibm', 'wiener', 'irm'):
+        x = np.ascontiguousarray(x.real)
+    rt = 1e-5 if x.dtype in (np.complex64, np.float32) else 1e-12
     x_in = np.array(x)
     x_in.setflags(write=False)
     fn = {'ibm': m.ideal_binary_mask, 'wiener': m.wiener_like_mask,
@@ -85,7 +95,8 @@ def source_masks(d, ctx):
           'psm': m.phase_sensitive_mask}[which]
     got = ctx.lib(fn, x_in, **kw)
     ctx.describe(mask=which, shape=x.shape, kind=kind, kwargs=kw)
-    ctx.label(which, f'ndim={ndim}', kind, 'sensor' if sensor is not None else 'no-sensor')
+    ctx.label(which, f'ndim={ndim}', kind, 'sensor' if sensor is not None else 'no-sensor',
+              dtype_variant, 'eps-keyword' if 'eps' in kw else 'eps-default')
     require(np.array_equal(x_in, x), 'argument-modified', which)
     exp_shape = tuple(s for a, s in enumerate(x.shape)
                       if not (a == sensor and not keepdims))
@@ -97,56 +108,65 @@ def source_masks(d, ctx):
     g = np.asarray(got)
     if sensor is not None and not keepdims:
         g = np.expand_dims(g, sensor)
-    p = pooled_power(x, sensor)
+    xd = x.astype(np.complex128) if np.iscomplexobj(x) else x.astype(np.float64)
+    p = pooled_power(xd.astype(np.complex128), sensor)
     if which == 'ibm':
         require(np.all((g == 0) | (g == 1)), 'ibm-binary', '')
         require(np.all(g.sum(axis=src) == 1), 'ibm-one-hot', '')
         chosen = np.sum(g * p, axis=src)
-        require(np.all(chosen == p.max(axis=src)), 'ibm-not-at-maximal-power',
+        require(np.all(chosen >= p.max(axis=src) * (1 - 10 * rt)), 'ibm-not-at-maximal-power',
                 f'{kw}', mask=which)
     elif which == 'wiener':
-        ref = p / (p.sum(axis=src, keepdims=True) + EPS)
-        require_close(g, ref, 'wiener-definition', rtol=1e-12, atol=1e-300,
+        ref = p / (p.sum(axis=src, keepdims=True) + eps_used)
+        require_close(g, ref, 'wiener-definition', rtol=rt, atol=1e-300 + rt * 1e-3,
                       what=f'{kw}', mask=which)
-        require(np.all(np.isfinite(g)) and g.min() >= 0 and g.max() <= 1 + 1e-12,
+        require(np.all(np.isfinite(g)) and g.min() >= 0 and g.max() <= 1 + rt,
                 'wiener-range', f'{g.min()} {g.max()}')
         tot = p.sum(axis=src)
-        require_close(g.sum(axis=src), tot / (tot + EPS), 'wiener-sum', rtol=1e-12,
-                      atol=1e-15)
+        require_close(g.sum(axis=src), tot / (tot + eps_used), 'wiener-sum', rtol=rt,
+                      atol=10 * rt)
     elif which == 'irm':
-        a = np.abs(x)
-        ref = a / (a.sum(axis=src, keepdims=True) + EPS)
-        require_close(g, ref, 'irm-definition', rtol=1e-12, atol=1e-300, what=f'{kw}',
+        a = np.abs(xd)
+        ref = a / (a.sum(axis=src, keepdims=True) + eps_used)
+        require_close(g, ref, 'irm-definition', rtol=rt, atol=1e-300 + rt * 1e-3, what=f'{kw}',
                       mask=which)
-        require(np.all(np.isfinite(g)) and g.min() >= 0 and g.max() <= 1 + 1e-12,
+        require(np.all(np.isfinite(g)) and g.min() >= 0 and g.max() <= 1 + rt,
                 'irm-range', '')
     elif which == 'icm':
-        y = x.sum(axis=src, keepdims=True)
-        ok = np.abs(y) > 1e-9 * np.abs(x).sum(axis=src, keepdims=True)
+        y = xd.sum(axis=src, keepdims=True)
+        ok = np.abs(y) > 1e-3 * np.abs(xd).sum(axis=src, keepdims=True)
         ok = np.broadcast_to(ok & (np.abs(y) > 0), x.shape)
         if ok.any():
             rec = (g * y)[ok]
-            require_close(rec, x[ok], 'icm-times-mixture-is-not-the-source',
-                          rtol=1e-9, atol=1e-300, what=f'{kw}', mask=which)
+            require_close(rec, xd[ok], 'icm-times-mixture-is-not-the-source',
+                          rtol=max(rt * 1e4, 1e-9), atol=1e-300, what=f'{kw}', mask=which)
     else:
-        y = x.sum(axis=src, keepdims=True)
+        y = xd.sum(axis=src, keepdims=True)
         require(np.all(np.isfinite(g)), 'psm-finite', '')
+        if 'eps' in kw:
+            # the definition with the configured guard
+            th = np.angle(xd) - np.angle(y)
+            ref = np.abs(xd) / (np.abs(y) + eps_used) * np.cos(th)
+            require_close(g, ref, 'psm-definition-with-eps', rtol=max(rt * 100, 1e-9),
+                          atol=max(rt * 100, 1e-9), mask=which)
         ok = np.broadcast_to(np.abs(y) > 1e-6, x.shape)
-        if ok.any():
-            ref = (x / np.where(y == 0, 1, y)).real
+        if ok.any() and 'eps' not in kw:
+            ref = (xd / np.where(y == 0, 1, y)).real
             require_close(g[ok], ref[ok], 'psm-is-not-real-part-of-complex-mask',
-                          rtol=1e-9, atol=1e-9, what=f'{kw}', mask=which)
+                          rtol=max(rt * 100, 1e-9), atol=max(rt * 100, 1e-9),
+                          what=f'{kw}', mask=which)
     # moving the source axis moves the output axis and nothing else
     if ndim >= 2 and sensor is None:
         dst = d.int(0, ndim - 1)
         xm = np.moveaxis(x, src, dst)
-        gm = ctx.lib(fn, xm, source_axis=neg(d, dst, ndim))
+        gm = ctx.lib(fn, xm, source_axis=neg(d, dst, ndim),
+                     **({'eps': kw['eps']} if 'eps' in kw else {}))
         if which == 'ibm':
             # ties may be broken differently only if the argmax order changed:
             # it is along the source axis, so the result must be identical
             pass
         require_close(np.moveaxis(np.asarray(gm), dst, src), np.asarray(got),
-                      'moving-the-source-axis-changes-the-result', rtol=1e-12,
+                      'moving-the-source-axis-changes-the-result', rtol=rt,
                       atol=1e-300, what=f'{which} {src}->{dst}', mask=which,
                       ) if not np.any(np.isnan(got)) else None
     ctx.nontrivial(ndim >= 2 and ('source_axis' in kw or sensor is not None)
